@@ -20,6 +20,15 @@ type PCase struct {
 	DecodeType string // "" = root type
 	Labels     []string
 	Stream     string
+	// Extra raw-text documents (possibly malformed) run only against the real code, optionally after a
+	// prior document was decoded into the same destination (C19).
+	Extra []ExtraDoc
+}
+
+type ExtraDoc struct {
+	Doc   string
+	Prior string
+	Wire  string // "J" or "Y"
 }
 
 type ModelRun struct{ J, Y, Spec string }
@@ -41,6 +50,7 @@ type PResult struct {
 	CompileErr  string
 	RunsJ       []RunRes
 	RunsY       []RunRes
+	ExtraRuns   []RunRes
 	ModelGen    string
 	ModelIssues []string
 	ModelSum    string
@@ -152,11 +162,29 @@ func RunPipeline(cases []*PCase) ([]*PResult, *Batch, error) {
 			}
 		}
 	}
+	for _, r := range results {
+		if r.RunsJ == nil || len(r.Case.Extra) == 0 {
+			continue
+		}
+		r.ExtraRuns = make([]RunRes, len(r.Case.Extra))
+		for ei, e := range r.Case.Extra {
+			w := e.Wire
+			if w == "" {
+				w = "J"
+			}
+			reqs = append(reqs, RunReq{Prog: r.Case.ID, Type: r.RootName, Wire: w, Doc: e.Doc, Prior: e.Prior})
+			slots = append(slots, slot{r, -1 - ei, false})
+		}
+	}
 	out, err := batch.Run(reqs)
 	if err != nil {
 		return nil, batch, err
 	}
 	for i, s := range slots {
+		if s.doc < 0 {
+			s.res.ExtraRuns[-1-s.doc] = out[i]
+			continue
+		}
 		if s.yaml {
 			s.res.RunsY[s.doc] = out[i]
 		} else {
